@@ -178,15 +178,15 @@ def capacity(chk, MAX):
     rets = [x for x in o if x.kind == 'ret']
     loops = [x for x in o if x.kind == 'loop']
     pans = [x for x in o if x.kind == 'panic']
-    ok = len(rets) == 1 and len(loops) == 1
+    # (a debug-only check forks the paths by build profile: every loop path and every exit path must satisfy the rule)
+    ok = len(rets) >= 1 and len(loops) >= 1
     detail = 'paths %r' % ([(x.kind, x.val if x.kind != 'ret' else '') for x in o],)
-    if ok:
-        lp = loops[0]
+    for lp in (loops if ok else []):
         head = [e for e in lp.st.events if e[0] == 'loop-head' and e[1] == fn_]
         before = head[0][4] if head else {}
         idx0 = before.get(byname.get('idx'))
         tbl0 = before.get(byname.get('table'))
-        ok = idx0 is not None and eval_value(idx0, {}) == 0 and isinstance(tbl0, Array) and not tbl0.elems and eval_value(entry_bits(tbl0.default), {}) == 0
+        ok = ok and idx0 is not None and eval_value(idx0, {}) == 0 and isinstance(tbl0, Array) and not tbl0.elems and eval_value(entry_bits(tbl0.default), {}) == 0
         detail = 'before the loop: idx = %r, table = %r' % (idx0, tbl0)
         # preconditions established before the loop: n >= 1, raw[0] == 0, n <= MAX
         rn = lp.st.rng.get('n')
@@ -207,10 +207,11 @@ def capacity(chk, MAX):
             okb = okb and ai is not None and I.aff_equal(lp.st, I.exact_aff(lp.st, idxv), ai.add(Aff({}, 1)))
         ok = ok and okb
         detail += '; iteration: table %r idx %r' % (tbl, idxv)
+    for rt in (rets if ok else []):
         # exit: returns {table, len = n}
-        rv = rets[0].val
-        ok = ok and same(rv.fields[1], I.resub(rets[0].st, BV.sym(64, 'n')))
-        tl = rets[0].st.mem.get(('L', rets[0].frame, byname['table']))
+        rv = rt.val
+        ok = ok and same(rv.fields[1], I.resub(rt.st, BV.sym(64, 'n')))
+        tl = rt.st.mem.get(('L', rt.frame, byname['table']))
         ok = ok and rv.fields[0] is tl
     chk.ob('from-raw', 'from_raw_entries%s: asserts (non-empty, first entry zero, len <= MAX) precede a loop from 0 that copies raw[idx] into slot idx; result len = slice length' % tag, ok, detail, fn_site(I, fn_))
     chk.ob('from-raw', 'from_raw_entries%s: panic paths are the three assertions (and unreachable bounds checks)' % tag, bool(pans) and all(x.kind == 'panic' for x in pans), 'paths %r' % ([x.val for x in pans],), fn_site(I, fn_))
